@@ -365,3 +365,15 @@ package iam
 //@        && arg(call (storage.SessionStore).Put #1, 1) == arg(call (storage.SessionStore).Get #1, 1)
 //@   ensures [check-and-mark-are-one-step] isNilIface(result.1) && typeOf(result.0) == ValidateDPoPProof200JSONResponse && result.0.(ValidateDPoPProof200JSONResponse).Valid ==>
 //@        did(call (*sync.Mutex).Lock #1) || did(call (sync.Locker).Lock #1)
+
+// ---- C02: what is written on the wire ----
+// Both response types are defined types of the generated response structs and lose their generated
+// MarshalJSON (the one that writes the additional properties, i.e. the credential-derived claims);
+// these methods restore it. Reflection-based marshalling is outside this verifier's reach: the contracts
+// pin that the value handed to json.Marshal has the type that carries the generated MarshalJSON.
+//@ func (IntrospectAccessToken200JSONResponse).MarshalJSON
+//@   prop C02
+//@   ensures [marshalled-through-the-generated-type] did(call json.Marshal #1) && typeOf(arg(call json.Marshal #1, 0)) == TokenIntrospectionResponse
+//@ func (IntrospectAccessTokenExtended200JSONResponse).MarshalJSON
+//@   prop C02
+//@   ensures [marshalled-through-the-generated-type] did(call json.Marshal #1) && typeOf(arg(call json.Marshal #1, 0)) == ExtendedTokenIntrospectionResponse
